@@ -160,7 +160,10 @@ class MHLGenerationCreationSession:
         if action != None:
             hash_entry.action = action
 
-        media_hash.append_hash_entry(hash_entry)
+        # a file that is handed in twice in one session (e.g. the same path given twice with -sf)
+        # gets only one entry per hash format, a second one would not be valid in the manifest
+        if media_hash.find_hash_entry_for_format(hash_format) is None:
+            media_hash.append_hash_entry(hash_entry)
         return hash_entry.action != "failed"
 
     def append_multiple_format_directory_hashes(
